@@ -321,7 +321,7 @@ SHAPES = {
 }
 
 
-def write_program(root: str, shape: str, variant: dict[int, int] | None = None, tick: int = 1000) -> None:
+def write_program(root: str, shape: str, variant: dict[int, int] | None = None, tick: int = 1000, ign: Any = ()) -> None:
     """Module m<k> per SCC k; each has an interface-phase and an implementation-phase error per dependency.
     variant[k] = 1 changes the return type of f<k> (its interface), so dependants see other errors."""
     deps = SHAPES[shape]
@@ -333,20 +333,29 @@ def write_program(root: str, shape: str, variant: dict[int, int] | None = None, 
         lines = ["import m%d" % d for d in ds]
         # re-export the classes of the dependencies' dependencies, and refer to them through the direct dependency only:
         # m gets INDIRECT dependencies on the modules two levels below
-        lines.append("class C%d:\n    x: int = 0" % m)
+        # an attribute that is only defined inside a function nested in a method: its type has to be known after the
+        # INTERFACE phase, because dependants may be checked by another worker
+        lines.append("class C%d:\n    x: int = 0\n    def setup(self) -> None:\n        def inner() -> None:\n            self.size = 1\n        inner()" % m)
         for d in ds:
             lines.append("from m%d import f%d as f%d_from_%d" % (d, d, d, m))
         lines.append("def f%d() -> %s:\n    return %s" % (m, ret, val))
         for d in ds:
             lines.append("t%d_%d: str = m%d.f%d()" % (m, d, d, d))
             lines.append("def g%d_%d() -> str:\n    return m%d.C%d().x" % (m, d, d, d))
+            lines.append("def k%d_%d() -> str:\n    return m%d.C%d().size" % (m, d, d, d))
             for dd in deps[d]:
                 # through the name m<d> re-exports from m<dd>: an indirect dependency of m on m<dd>
                 lines.append("def h%d_%d_%d() -> str:\n    return m%d.f%d_from_%d()" % (m, d, dd, d, dd, d))
+                # ... and a module-level variable whose INFERRED type (part of m's interface) comes from that indirect dependency
+                lines.append("u%d_%d_%d = m%d.f%d_from_%d()" % (m, d, dd, d, dd, d))
+                for ddd in deps[dd]:
+                    lines.append("w%d_%d_%d_%d: str = m%d.u%d_%d_%d" % (m, d, dd, ddd, d, d, dd, ddd))
         if variant.get(m) == 2:
             lines.append("def broken( -> None: pass")
         if variant.get(m) == 3:
             lines.insert(0, "import missing_mod_%d" % m)
+        if m in ign:
+            lines.insert(0, "# mypy: ignore-errors")      # diagnostics skipped, interface and dependencies still needed
         path = os.path.join(root, "m%d.py" % m)
         txt = "\n".join(lines) + "\n"
         old = open(path).read() if os.path.exists(path) else None
